@@ -114,8 +114,20 @@ func vsRead(self *Metadata, name MetadataFileName, limit int64) (LazyArgumentMap
 	if vsReadErr {
 		return nil, errors.New("read failed")
 	}
+	if vsRealOuts != nil && name == OutsFile {
+		return vsRealOuts, nil
+	}
 	return LazyArgumentMap{}, nil
 }
+
+// what every stage of the real-graph fixture writes as its outputs (H_SCHED_run)
+var vsRealOuts LazyArgumentMap
+
+// (the reference JSON decoder of zz_verif_c01_real.go; reached only when the
+// fixture stages have outputs, i.e. in H_SCHED_run)
+//
+//verif:stub encoding/json.Unmarshal
+func vsUnmarshal(data []byte, v any) error { return vjUnmarshal(data, v) }
 
 //verif:stub (*github.com/martian-lang/martian/martian/core.Metadata).poll
 func vsPoll(self *Metadata) {}
@@ -1082,7 +1094,7 @@ func H_C05_metadataRestart(op int) {
 		verifAssert(len(m.contents) == 0, "C05: after a reset nothing of the old attempt remains cached")
 		if oldUniq != "" {
 			verifCover("uniquified attempt reset")
-			verifAssert(m.uniquifier != oldUniq, "C05/C11: the attempt that replaces a reset one gets a new uniquifier, so late notifications of the abandoned attempt are not taken for its own")
+			verifAssert(m.uniquifier != oldUniq, "C02/C05/C11: the attempt that replaces a reset one gets a new uniquifier, so late notifications of the abandoned attempt are not taken for its own")
 		}
 	} else {
 		verifAssert(vsHas(m, CompleteFile) == (st == Complete) || st == Failed, "C05: a job that is not reset keeps its recorded state")
@@ -1558,4 +1570,160 @@ func H_SCHED_realGraph(which int) {
 			}
 		}
 	}
+}
+
+// ---- bounded runs of the whole pipestance: every completion order ----
+
+//verif:stub (*github.com/martian-lang/martian/martian/core.LocalJobManager).refreshResources
+func vsLocalRefresh(self *LocalJobManager, localMode bool) error { return nil }
+
+// H_SCHED_run(rounds): the instantiated pipeline of H_SCHED_realGraph is run
+// from scratch by the real Pipestance.StepNodes; between two rounds either
+// all running jobs or any single one of them completes successfully (every
+// completion order within the bound).
+//
+//	C02: a job is submitted only when every call its stage depends on (per the
+//	     MRO text) has completed.
+//	C03: no job is submitted twice; when every submitted job has completed and
+//	     nothing more is submitted, every stage fork has run and the pipestance
+//	     is complete (nothing is left behind, no stall).
+func H_SCHED_run(rounds int) {
+	ps, nodes := vsRealGraph()
+	disableDiskSpaceCheck = true
+	ps.node.top.rt.LocalJobManager = &LocalJobManager{}
+	ps.metadata.contents[Lock] = struct{}{}
+	// a fresh pipestance directory: LoadMetadata finds nothing and puts every
+	// node on the frontier
+	vsGlob = nil
+	ps.LoadMetadata(context.Background())
+	vsExec = nil
+	vsRealOuts = LazyArgumentMap{"o": json.RawMessage("1"), "flag": json.RawMessage("false")}
+	finished := map[*Metadata]bool{}
+	owner := func(m *Metadata) int {
+		for i, n := range nodes {
+			for _, mm := range n.collectMetadatas() {
+				if mm == m {
+					return i
+				}
+			}
+		}
+		return -1
+	}
+	quiet := false
+	for r := 0; r < rounds; r++ {
+		before := len(vsExec)
+		progress := ps.StepNodes(context.Background())
+		// what was submitted this round
+		for k := before; k < len(vsExec); k++ {
+			m := vsExec[k]
+			for j := 0; j < k; j++ {
+				verifAssert(vsExec[j] != m, "C03: no job is submitted twice")
+			}
+			o := owner(m)
+			verifAssert(o >= 0, "every job belongs to a stage of the pipeline")
+			if o >= 0 {
+				for _, d := range vsRealDeps[o] {
+					verifAssert(vsDone(nodes[d]), "C02: a job is submitted only after every call its stage depends on has completed")
+				}
+			}
+		}
+		// some of the running jobs finish
+		// of the running jobs either all finish now, or exactly one of them does
+		var runningJobs []*Metadata
+		for _, m := range vsExec {
+			if !finished[m] {
+				runningJobs = append(runningJobs, m)
+			}
+		}
+		running, finishedNow := len(runningJobs), 0
+		if running > 0 {
+			which := verifInt("which job finishes (or all)")
+			verifAssume(verifAll(which >= 0, which <= running))
+			which = verifConcretize(which)
+			for i, m := range runningJobs {
+				if which == running || which == i {
+					m.contents[LogFile] = struct{}{}
+					m.contents[CompleteFile] = struct{}{}
+					finished[m] = true
+					finishedNow++
+				}
+			}
+			running -= finishedNow
+		}
+		if running == 0 && finishedNow == 0 && len(vsExec) == before && !progress {
+			quiet = true
+			break
+		}
+	}
+	verifCover("bounded run")
+	if quiet {
+		verifCover("run quiescent")
+		// nothing is running and a whole round submitted nothing: the run is over
+		for i, n := range nodes {
+			for _, f := range n.forks {
+				st := f.getState()
+				verifAssert(st == Complete || st == DisabledState, "C03: when the run goes quiet every fork of every stage has run to completion (no call is forgotten)")
+			}
+			_ = i
+		}
+		verifAssert(ps.GetState(context.Background()) == Complete, "C03/C06: a run in which every job succeeded ends complete")
+	}
+}
+
+// H_C06_restartAfterFault(split): a stage whose jobs have all run; the failure
+// is either a failed chunk (its _errors) or the fork's own _errors, written by
+// mrp when the final outputs did not validate (doComplete).  The fault is
+// removed and mrp restarted: Pipestance.Reset, the default partial reset.
+//
+//	C06: once the fault is removed, a restart clears the failure, so that the
+//	     failed work can be re-executed; work that succeeded is kept.
+func H_C06_restartAfterFault(splitI int) {
+	disableUniquification = false
+	vsGlobFromCache = true
+	top := vsTop()
+	top.rt.Config.JobMode = localMode
+	top.rt.Config.FullStageReset = false
+	p := vsPipelineNode(top, nil, "ID.ps.P", "P")
+	p.parent = top
+	node, f := vsStageNode(top, "S", splitI != 0)
+	node.parent = p
+	p.subnodes["S"] = node
+	for _, m := range []*Metadata{f.split_metadata, f.join_metadata} {
+		m.contents[CompleteFile] = struct{}{}
+		m.contents[JobInfoFile] = struct{}{}
+		m.contents[LogFile] = struct{}{}
+	}
+	f.split_metadata.contents[StageDefsFile] = struct{}{}
+	c := &Chunk{fork: f, index: 0, chunkDef: &ChunkDef{}}
+	c.fqname = f.fqname + ".chnk0"
+	c.metadata = newMetadataWithJournalPath(c.fqname, "P.S.fork0.chnk0", f.path+"/chnk0", top.journalPath)
+	c.metadata.contents[JobInfoFile] = struct{}{}
+	c.metadata.contents[LogFile] = struct{}{}
+	f.chunks = append(f.chunks, c)
+	forkLevel := verifBool("the fork itself failed (invalid outputs)")
+	if forkLevel {
+		if verifKnown("C06-stale-fork-error") {
+			verifAssume(false)
+		}
+		c.metadata.contents[CompleteFile] = struct{}{}
+		f.metadata.contents[Errors] = struct{}{}
+	} else {
+		c.metadata.contents[Errors] = struct{}{}
+		f.join_metadata.contents = map[MetadataFileName]struct{}{}
+	}
+	vsPidZero, vsPidDead, vsJobInfoErr = false, true, false
+	ps := &Pipestance{node: p, metadata: NewMetadata("ID.ps", "/ps")}
+	ps.metadata.contents[Lock] = struct{}{}
+	node.state = node.getState()
+	verifAssert(node.state == Failed, "C06: the stage is failed before the restart")
+	p.state = Running
+	top.node.frontierNodes.nodes[node.GetFQName()] = node
+	err := ps.Reset()
+	verifCover("restarted after a fault")
+	verifAssert(err == nil, "the reset succeeds when the file system does")
+	verifAssert(node.getState() != Failed, "C06: once the fault is removed a restart clears the failure, so that the failed work can run again")
+	if forkLevel {
+		verifCover("fork-level failure")
+	}
+	verifAssert(vsHas(f.split_metadata, CompleteFile), "C06: work that succeeded is not redone by a restart")
 }
